@@ -151,16 +151,21 @@ def C15_probe_rate_calls_full (stamp : Bool) : Prop :=
 /-- **as found, the full-strength statement is false**: a queued probe candidate is consumed by
 whatever call comes next, however late; the next candidate is queued 30 s after the *previous
 candidate*, not after the previous probe call. Witness (2 endpoints, endpoint 0 fails): blocked at
-t=100; candidate queued at 130; no call until 159 → probe call at 159 (fails); candidate queued at
-160 → probe call at 160: two probe calls 1 s apart. Reproduced on the real code
+t=100; candidate queued at 131 (= 101 + tryTimeInterval); no call until 160 → probe call at 160 (fails);
+candidate queued at 162 → probe call at 162: two probe calls 2 s apart. Reproduced on the real code
 (corpus/C15/probe-burst.json, signature C15:probe-burst:SelectAdapterProxy). -/
 theorem C15_probe_rate_calls_counterexample : ¬ C15_probe_rate_calls_full false := by
   intro hfull
   have := hfull [0, 1] 100
-    [.start 0 false false, .start 0 false false, .checkStatus [], .advance 30, .checkStatus [0],
-     .advance 29, .start 0 true false, .finish 0 false, .advance 1, .checkStatus [0], .start 0 true false]
-    [] [.grant 0 160, .fail 0 159, .picked 0 true 159, .grant 0 130, .blocked 0 100, .fail 0 100, .picked 0 false 100,
-        .fail 0 100, .picked 0 false 100] 0 160 159 (by decide) (by decide)
+    [.start 0 false false, .start 0 false false, .start 0 false false, .checkStatus [],
+     .advance (Consts.healthTryTimeInterval + 1), .checkStatus [0],
+     .advance (Consts.healthTryTimeInterval - 1), .start 0 true false, .finish 0 false, .advance 2, .checkStatus [0],
+     .start 0 true false]
+    [] [.grant 0 (102 + 2 * Consts.healthTryTimeInterval), .fail 0 (100 + 2 * Consts.healthTryTimeInterval),
+        .picked 0 true (100 + 2 * Consts.healthTryTimeInterval), .grant 0 (101 + Consts.healthTryTimeInterval),
+        .blocked 0 100, .fail 0 100, .picked 0 false 100, .fail 0 100, .picked 0 false 100, .fail 0 100,
+        .picked 0 false 100] 0 (102 + 2 * Consts.healthTryTimeInterval) (100 + 2 * Consts.healthTryTimeInterval)
+    (by decide) (by decide)
   omega
 
 /-- **what does hold as found**: of any three consecutive probe calls on an endpoint the first and
@@ -268,8 +273,8 @@ theorem C15_fallback_pick (stamp : Bool) (reg : List Nat) (now0 : Int) (h : List
 
 /-! ## non-vacuity: concrete histories -/
 
-/-- two refused sends on endpoint 0, then a status check -/
-def exBlock : List Action := [.start 0 false false, .start 0 false false, .checkStatus []]
+/-- three refused sends on endpoint 0, then a status check -/
+def exBlock : List Action := [.start 0 false false, .start 0 false false, .start 0 false false, .checkStatus []]
 
 /-- six (one-way) successes, then five refused sends on endpoint 0, then 5 s -/
 def exStreak : List Action :=
@@ -277,13 +282,15 @@ def exStreak : List Action :=
    .start 0 true true, .start 0 false false, .start 0 false false, .start 0 false false,
    .start 0 false false, .start 0 false false, .advance 5]
 
-/-- endpoint 0 blocked, 30 s later queued as probe candidate, the next call is its probe -/
+/-- endpoint 0 blocked, 31 s later queued as probe candidate, the next call is its probe -/
 def exProbe : List Action :=
-  [.start 0 false false, .start 0 false false, .checkStatus [], .advance 30, .checkStatus [0], .start 7 true false]
+  [.start 0 false false, .start 0 false false, .start 0 false false, .checkStatus [],
+   .advance (Consts.healthTryTimeInterval + 1), .checkStatus [0], .start 7 true false]
 
 /-- endpoint 0 is taken out (the hypothesis of `C15_min_two` is satisfiable) -/
 example : (after false [0, 1] 100 exBlock).log
-    = [.blocked 0 100, .fail 0 100, .picked 0 false 100, .fail 0 100, .picked 0 false 100] := by decide
+    = [.blocked 0 100, .fail 0 100, .picked 0 false 100, .fail 0 100, .picked 0 false 100, .fail 0 100,
+       .picked 0 false 100] := by decide
 
 /-- the hypotheses of `C15_blocked_after_check` hold (the ratio rule does not fire: 5 of 11) and the
 endpoint is out after the check -/
@@ -294,7 +301,7 @@ example : 5 ≤ streak (after false [0, 1] 100 exStreak).log 0 ∧ lastOk (after
 /-- a probe candidate is queued (hypothesis of `C15_probe_rate`: a `grant` in the log), handed to one
 call (hypothesis of `C15_reinstate`: an open probe call), and the successful probe reinstates -/
 example : (after false [0, 1] 100 exProbe).inflight = [(0, true)] ∧ (after false [0, 1] 100 exProbe).sel = [1] ∧
-    (after false [0, 1] 100 exProbe).log.head? = some (.picked 0 true 130) ∧
+    (after false [0, 1] 100 exProbe).log.head? = some (.picked 0 true (101 + Consts.healthTryTimeInterval)) ∧
     (step (after false [0, 1] 100 exProbe) (.finish 0 true)).sel = [1, 0] := by decide
 
 /-- every endpoint blocked: the call still goes to a registered endpoint -/
